@@ -49,6 +49,10 @@ def fmod (a b : Int) : Int := Int.fmod a b
 /-- Python `a ** n` for `n ≥ 0` -/
 def pow (a n : Int) : Int := a ^ n.toNat
 
+/-- Python `x in <tuple of non-negative ints>` -/
+def inNat (x : Int) (l : List Nat) : Prop := 0 ≤ x ∧ x.toNat ∈ l
+instance (x : Int) (l : List Nat) : Decidable (inNat x l) := by unfold inNat; infer_instance
+
 @[simp] theorem iand_ofNat (a b : Nat) : iand (a : Int) (b : Int) = ((a &&& b : Nat) : Int) := rfl
 @[simp] theorem ior_ofNat (a b : Nat) : ior (a : Int) (b : Int) = ((a ||| b : Nat) : Int) := rfl
 @[simp] theorem ixor_ofNat (a b : Nat) : ixor (a : Int) (b : Int) = ((a ^^^ b : Nat) : Int) := rfl
